@@ -236,8 +236,9 @@ def coq_property_file(prop, scratch):
     return rc == 0, theorems, assumptions, out
 
 
-def coq_run_cases(imports, case_type, run, eqb, literals, scratch, tag, chunk=250, jobs=16, timeout=1500):
-    """evaluate the model on every case inside Coq; return (failing indices, errors)"""
+def coq_run_cases(imports, case_type, run, eqb, literals, scratch, tag, chunk=250, jobs=16, timeout=1500, tagf=None, tagc=None):
+    """evaluate the model on every case inside Coq; return (failing indices, errors).
+    tagf: optional Gallina function cin -> list nat whose results are counted into tagc (branch coverage)"""
     files = []
     for ci, off in enumerate(range(0, len(literals), chunk)):
         part = literals[off:off + chunk]
@@ -247,6 +248,8 @@ def coq_run_cases(imports, case_type, run, eqb, literals, scratch, tag, chunk=25
             f.write(imports + "\nOpen Scope Q_scope.\n")
             f.write("Definition cases : list %s := [\n%s\n].\n" % (case_type, ";\n".join(part)))
             f.write("Eval vm_compute in (failing %s %s cases 0%%nat).\n" % (run, eqb))
+            if tagf:
+                f.write("Eval vm_compute in (concat (map (fun c => %s (fst c)) cases)).\n" % tagf)
         files.append((path, off, len(part)))
     failing, errors = [], []
     procs = []
@@ -263,6 +266,11 @@ def coq_run_cases(imports, case_type, run, eqb, literals, scratch, tag, chunk=25
         body = m.group(1).replace("%nat", "").strip()
         if body:
             failing.extend(off + int(x) for x in body.split(";"))
+        if tagf and tagc is not None:
+            ms = re.findall(r'=\s*\[(.*?)\]\s*:\s*list nat', out, re.S)
+            if len(ms) >= 2 and ms[1].strip():
+                for x in ms[1].replace("%nat", "").split(";"):
+                    tagc[int(x)] += 1
 
     pending = list(files)
     running = []
